@@ -434,9 +434,16 @@ func (m *mon) runBi() {
 		}
 		perm := r.Perm(n)
 		_, tied, _ := kendallRef(x, y, nil)
+		ew := weightExps[r.Intn(len(weightExps))] // weight scale class of this case
+		kw := r.PickInt(60, -60)                  // exact rescaling of the weights for the invariance relation
 		for _, wk := range biWeightKinds {
 			w := genBiWeights(r, wk, n)
-			c.LastCase(fmt.Sprintf("bivariate stats n=%d class=%s wk=%s case=%d (stream bi)", n, class, wk, ci))
+			ewk := 0
+			if scalableKind(wk) {
+				ewk = ew
+				w = scaleBy(w, ewk)
+			}
+			c.LastCase(fmt.Sprintf("bivariate stats n=%d class=%s wk=%s ew=%d case=%d (stream bi)", n, class, wk, ewk, ci))
 			bm := newBimoments(x, y, w)
 			var bmRep *bimoments
 			var rx, ry []float64
@@ -455,7 +462,7 @@ func (m *mon) runBi() {
 			}
 			for si := range biStats {
 				S := &biStats[si]
-				if n < S.minN || bm.mx.Wf < S.minW || (zero && !S.zerosOK) || (S.needVarX && effConstX) || (S.needVarY && effConstY) || absInt(e) > S.maxExp {
+				if n < S.minN || bm.mx.Wf < S.minW || (zero && !S.zerosOK) || (S.needVarX && effConstX) || (S.needVarY && effConstY) || !fits(ewk, e, S.maxExp) {
 					continue
 				}
 				if wk == wNorm && S.name != "LinearRegression" && S.name != "Correlation" && S.name != "RSquared" && S.name != "LinearRegression(origin)" && S.name != "RNoughtSquared" && S.name != "Kendall" {
@@ -465,6 +472,9 @@ func (m *mon) runBi() {
 					continue
 				}
 				cls := sc
+				if ewk != 0 && e == 0 {
+					cls = "extreme-weights"
+				}
 				if wk == wNorm && S.name == "LinearRegression" {
 					cls = "normalised-weights" // total weight 1: see the ref comment
 				}
@@ -509,6 +519,20 @@ func (m *mon) runBi() {
 						m.eval(ci, S.name+"|ones-vs-nil|"+class+"|"+sc)
 						for k := range out {
 							m.rel(S.name+dot(S.outs[k]), cls, "ones-weights != nil-weights", out[k], o2[k], 2*units[k], replay)
+						}
+					}
+				}
+				// rescaling all weights by an exact power of two changes no
+				// statistic that is normalised by the total weight
+				if w != nil && S.minW == 0 && fits(ewk+kw, e, S.maxExp) {
+					var o2 []float64
+					w2 := scaleBy(w, kw)
+					if m.try(S.name, cls, replay, func() { o2 = S.call(cp(x), cp(y), w2, aux) }) {
+						m.eval(ci, S.name+"|weight-scale|"+wk+"|"+class+"|"+sc)
+						for k := range out {
+							m.rel(S.name+dot(S.outs[k]), cls, "changes when all weights are scaled by 2^k", out[k], o2[k], 2*units[k], func() any {
+								return replayCase{"func": S.name, "x": x, "y": y, "weights": w, "k": kw, "aux(alpha,beta)": aux}
+							})
 						}
 					}
 				}
